@@ -46,6 +46,8 @@ def main(run):
     rc.l2_interleaved(run, ['shared', 'indep'] if quick else ['plain', 'same', 'shared', 'indep', 'mixed'], 5 if quick else 60, 40, run.seed + 27, kinds=('extra-chunk',))
     n = 3 if quick else 30
     traces = rc.histories(run, rc.ALL_GRAPHS, range(run.seed * 100, run.seed * 100 + n), 14 if quick else 30, reads=False)
+    traces += rc.histories(run, ['shared', 'indep'] if quick else rc.ALL_GRAPHS, range(run.seed * 100 + 90, run.seed * 100 + 90 + (1 if quick else 8)), 12 if quick else 25,
+                           reads=False, flavour='s3')           # over the real S3 adapter, paged listings
     traces += repeats(run, rc.ALL_GRAPHS, range(run.seed * 10, run.seed * 10 + (1 if quick else 6)), [1, 3, 8] if quick else [1, 2, 3, 5, 8])
     rc.validate(run, traces, CLAUSES, label='c07.histories')
     run.coverage['rule'] = ('a case is one crash-free command history or one repeat-snapshot scenario (key graph x seed x concurrency) '
